@@ -231,9 +231,9 @@ class GGM:
         z[:, 0] = _gam_dens(self.shape, self.scale, x)
         z[:, 1] = _gaus_dens(self.mean, self.var, x)
         z = z * np.array([self.mixt, 1. - self.mixt])
-        sz = np.maximum(np.sum(z, 1), eps)
-        L = np.sum(np.log(sz)) / np.size(x)
-        z = (z.T / sz).T
+        sz = np.sum(z, 1)
+        L = np.sum(np.log(np.maximum(sz, eps))) / np.size(x)
+        z = ((z.T + eps / 2) / (sz + eps)).T
         return z, L
 
     def estimate(self, x, niter=10, delta=0.0001, verbose=False):
@@ -321,7 +321,9 @@ class GGM:
         p = self.mixt
         pg = p * _gam_dens(self.shape, self.scale, x)
         y = (1 - p) * _gaus_dens(self.mean, self.var, x)
-        return y / (y + pg), pg / (y + pg)
+        tiny = 1.e-15
+        total = y + pg + tiny
+        return (y + tiny / 2) / total, (pg + tiny / 2) / total
 
 
 ##############################################################################
@@ -527,9 +529,9 @@ class GGGM:
         """
         tiny = 1.e-15
         z = np.array(self.component_likelihood(x)).T * self.mixt
-        sz = np.maximum(tiny, np.sum(z, 1))
-        L = np.mean(np.log(sz))
-        z = (z.T / sz).T
+        sz = np.sum(z, 1)
+        L = np.mean(np.log(np.maximum(tiny, sz)))
+        z = ((z.T + tiny / 3) / (sz + tiny)).T
         return z, L
 
     def estimate(self, x, niter=100, delta=1.e-4, bias=0, verbose=0,
@@ -604,8 +606,10 @@ class GGGM:
         """
         p = self.mixt
         ng, y, pg = self.component_likelihood(x)
-        total = ng * p[0] + y * p[1] + pg * p[2]
-        return ng * p[0] / total, y * p[1] / total, pg * p[2] / total
+        tiny = 1.e-15
+        total = ng * p[0] + y * p[1] + pg * p[2] + tiny
+        return ((ng * p[0] + tiny / 3) / total, (y * p[1] + tiny / 3) / total,
+                (pg * p[2] + tiny / 3) / total)
 
     def component_likelihood(self, x):
         """
